@@ -10,7 +10,7 @@ import json
 
 import numpy as np
 
-from mc.lib import Acc, tree_hash, maxabs
+from mc.lib import Acc, tree_hash, maxabs, on_path
 
 TREES = {
     "T1": {"v": [3], "m": [2, 3]},
@@ -207,6 +207,8 @@ def run_task(task):
     nxt = []
     for s, r, hist in frontier:
       for ev in task["events"]:
+        if not on_path(task, hist + (ev,)):
+          continue
         u, s2 = step(s, ev)
         if failed[0]:
           return acc.result()
